@@ -85,6 +85,32 @@ def gen_groups(rng, ngroups, est_hint=6):
     return groups
 
 
+def changed_groups(rng, groups):
+    """New parameters for the same groups (resubmit-jobs -s): another batch size / batching mode / processes per node /
+    HPC parameters.  The walltime only grows, so every estimate that fitted still fits."""
+    out = []
+    for g in groups:
+        n = dict(g)
+        n["batch"] = rng.choice([b for b in (1, 2, 3, 4, 5) if b != g["batch"]])
+        n["time_based"] = rng.random() < 0.35
+        n["procs_opt"] = rng.choice([None, 1, 2, 3])
+        if n["time_based"] and n["procs_opt"] is None:
+            n["procs_opt"] = rng.choice([1, 2])
+        n["procs"] = n["procs_opt"] if n["procs_opt"] else 3
+        n["wall_min"] = g["wall_min"] + rng.randint(1, 5)
+        n["walltime"] = f"0:{n['wall_min']:02d}:00"
+        n["try_add"] = rng.random() < 0.6
+        n["account"] = g["account"] + rng.choice(["", "_b"])
+        opts = dict(g.get("slurm_opts") or {})
+        if rng.random() < 0.5:
+            opts["partition"] = "repart_" + g["name"]
+        elif "partition" in opts and rng.random() < 0.5:
+            del opts["partition"]
+        n["slurm_opts"] = opts
+        out.append(n)
+    return out
+
+
 def gen_scenario(rng, max_jobs=10, min_jobs=2, shapes=None, fail_p=0.5, flag_p=0.5):
     n = rng.randint(min_jobs, max_jobs)
     shape = rng.choice(shapes or ["random", "random", "random", "chain", "diamond", "fanin", "fanout", "two"])
